@@ -60,6 +60,8 @@ def hostile_values(width_bytes):
     ints = st.one_of(
         st.sampled_from([big, big - 1, big // 2, big // 2 - 1, -1, -big // 2, -big // 2 - 1, big + 1,
                          10 ** 400, -(10 ** 400), 0, 1, 255, 256, 65535, 65536, 2 ** 32, 2 ** 64]),
+        # beyond the int -> str digit limit (built through map: they cannot be repr()-ed)
+        st.sampled_from([(10, 5000, 1), (10, 5000, -1), (2, 70000, 1)]).map(lambda t: t[2] * t[0] ** t[1]),
         st.integers(-(2 ** 70), 2 ** 70))
     floats = st.one_of(st.sampled_from([float("nan"), float("inf"), float("-inf"), 1e300, -1e300, -0.0,
                                         0.5, 1e-320, 3.9999999, 2.0 ** 31, 1e39, 3.5e38]),
@@ -69,6 +71,10 @@ def hostile_values(width_bytes):
         st.integers(0, 2 * n + 1).flatmap(lambda m: st.text(alphabet="aZ0 é", min_size=m, max_size=m)),
         # texts whose character count and UTF-8 byte count straddle the width
         st.integers(max(0, n - 3), n).flatmap(lambda m: st.text(alphabet="aé€ü", min_size=m, max_size=m)),
+        # lone surrogates (what surrogateescape produces for undecodable bytes)
+        st.integers(max(0, n - 2), n).flatmap(
+            lambda m: st.lists(st.sampled_from(["\udc80", "\udce9", "\udcff", "\ud800", "\udc00", "x"]),
+                               min_size=m, max_size=m).map("".join)),
         st.lists(st.integers(-2, 300), max_size=min(2 * n + 1, 270)),
         st.sampled_from([[0] * n, [255] * n, [0] * (n + 1), [256] * n, [-1] * n,
                          # right length, wrong element type
@@ -341,9 +347,9 @@ def check(case) -> core.Out:
     if outside:
         out.classes.append("outside")
     out.nontrivial = outside
-    out.dig = core.digest((defname, mode, bf, [(a, repr(v)) for a, v, *_ in infos], payload))
+    out.dig = core.digest((defname, mode, bf, [(a, core.srepr(v, 200)) for a, v, *_ in infos], payload))
     out.sample = {"definition": defname, "mode": C.MODES[mode], "bf": bf,
-                  "hostile": [[a, repr(v)[:40]] for a, v, *_ in infos]}
+                  "hostile": [[a, core.srepr(v, 40)] for a, v, *_ in infos]}
     a0, v0, k0, nd0, fl0, fk0, rep0 = infos[0]
 
     def vk(attr, val):
@@ -360,7 +366,7 @@ def check(case) -> core.Out:
         out.classes = ["skipped:baseline-does-not-round-trip(C03)"]
         out.nontrivial = False
         return out
-    desc = f"{C.MODES[mode]} {defname} bf={bf} " + ", ".join(f"{a}={v!r:.50}" for a, v, *_ in infos)
+    desc = f"{C.MODES[mode]} {defname} bf={bf} " + ", ".join(f"{a}={core.srepr(v, 50)}" for a, v, *_ in infos)
     try:
         built = pyubx2.UBXMessage(clsid[0:1], clsid[1:2], mode, parsebitfield=bf, **kw)
         got = built.payload or b""
@@ -377,7 +383,7 @@ def check(case) -> core.Out:
         for attr, val, kind, nd, fl, fk, rep in structural:
             if not rep:
                 out.viol.append((f"{PROP}|{fk}|{vk(attr, val)}|accepted-unrepresentable",
-                                 f"{desc}: accepted although {attr} cannot hold {val!r:.40}"))
+                                 f"{desc}: accepted although {attr} cannot hold {core.srepr(val, 40)}"))
         if not out.viol and all(i[5] == "count" for i in structural):
             # payload length must be the one the supplied counts imply
             counts = {n: G.leaf_lookup(nodes, n) for n in cnames}
@@ -404,7 +410,7 @@ def check(case) -> core.Out:
         if not holds_value(kind, nd, fl, dec[attr], val):
             sym = "mis-encoded" if rep else "accepted-unrepresentable"
             out.viol.append((f"{PROP}|{fk}|{vk(attr, val)}|{sym}",
-                             f"{desc}: field {attr} holds raw {dec[attr]!r:.40} after supplying {val!r:.40}"))
+                             f"{desc}: field {attr} holds raw {dec[attr]!r:.40} after supplying {core.srepr(val, 40)}"))
     for name, raw in base.items():
         if name in hostile_names:
             continue
